@@ -4,6 +4,7 @@ public call, canonical observation lines.  Formatting only; every value printed 
 -/
 import CG.Driver.Codec
 import CG.Model.Views
+import CG.Model.OpsImpl
 
 namespace CG.Driver.GraphH
 open CG CG.Codec Std
@@ -103,22 +104,22 @@ def applyOp (g : Graph) : List String → Option (Graph × String)
     pure (replyE (tsAddNode g (← decOpt? hexDec? i) (← decOpt? hexDec? v) (← decOpt? decInt? l)
       (← VType.ofText? vt) (← decMeta? m)) g)
   | ["add_edge", s, d, ty, m, v] => do
-    pure (replyE (addEdgeE g (← decEndpoint? s) (← decEndpoint? d) (← EdgeType.ofText? ty) (← decMeta? m)
-      (← decBool? v)) g)
+    pure (replyB (addEdgeImpl g (← decEndpoint? s) (← decEndpoint? d) (← EdgeType.ofText? ty) (← decMeta? m)
+      (← decBool? v)))
   | ["delete_edge", s, d, ty] => do
     pure (replyE (deleteEdge g (← hexDec? s) (← hexDec? d) (← decOpt? EdgeType.ofText? ty)) g)
   | ["delete_node", i] => do pure (replyE (deleteNode g (← hexDec? i)) g)
   | ["change_edge_type", s, d, ty] => do
-    pure (replyE (changeEdgeType g (← hexDec? s) (← hexDec? d) (← EdgeType.ofText? ty)) g)
+    pure (replyB (changeEdgeTypeImpl g (← hexDec? s) (← hexDec? d) (← EdgeType.ofText? ty)))
   | ["replace_edge", s, d, ns, nd, ty, m] => do
-    pure (replyE (replaceEdge g (← hexDec? s) (← hexDec? d) (← hexDec? ns) (← hexDec? nd)
-      (← decOpt? EdgeType.ofText? ty) (← decOpt? decMeta? m)) g)
+    pure (replyB (replaceEdgeImpl g (← hexDec? s) (← hexDec? d) (← hexDec? ns) (← hexDec? nd)
+      (← decOpt? EdgeType.ofText? ty) (← decOpt? decMeta? m)))
   | ["replace_node", i, new, l, v, vt, m] => do
-    pure (replyE (replaceNode g (← hexDec? i) (← decOpt? hexDec? new) (← decOpt? decInt? l) (← decOpt? hexDec? v)
-      (← decOpt? VType.ofText? vt) (← decOpt? decMeta? m)) g)
+    pure (replyB (replaceNodeImpl g (← hexDec? i) (← decOpt? hexDec? new) (← decOpt? decInt? l) (← decOpt? hexDec? v)
+      (← decOpt? VType.ofText? vt) (← decOpt? decMeta? m)))
   | ["add_time_edge", sv, st, dv, dt, m, v] => do
-    pure (replyE (addTimeEdge g (← hexDec? sv) (← decInt? st) (← hexDec? dv) (← decInt? dt) (← decMeta? m)
-      (← decBool? v)) g)
+    pure (replyB (addTimeEdgeImpl g (← hexDec? sv) (← decInt? st) (← hexDec? dv) (← decInt? dt) (← decMeta? m)
+      (← decBool? v)))
   | ["add_nodes_from", ids] => do pure (replyB (addNodesFrom g (← decList? ids)))
   | ["add_edges_from", es, v] => do pure (replyB (addEdgesFrom g (← decEdges? es) (← decBool? v)))
   | ["add_path", p, v] => do pure (replyB (addEdgesFromPath g (← decList? p) (← decBool? v)))
